@@ -274,12 +274,28 @@ func (s *Storage) LoadRules(f func(k, v string)) error {
 
 // SaveRuleGroup stores a rule group config to storage.
 func (s *Storage) SaveRuleGroup(groupID string, group interface{}) error {
+	if err := CheckRuleGroupID(groupID); err != nil {
+		return err
+	}
 	return s.SaveJSON(ruleGroupPath, groupID, group)
 }
 
 // DeleteRuleGroup removes a rule group from storage.
 func (s *Storage) DeleteRuleGroup(groupID string) error {
+	if err := CheckRuleGroupID(groupID); err != nil {
+		return err
+	}
 	return s.Remove(path.Join(ruleGroupPath, groupID))
+}
+
+// CheckRuleGroupID refuses group ids that do not survive the path cleaning of the storage key
+// unchanged: "a/" would address the stored config of group "a", "a//b" that of "a/b", and ".." a
+// key outside the rule group prefix.
+func CheckRuleGroupID(groupID string) error {
+	if path.Join(ruleGroupPath, groupID) != ruleGroupPath+"/"+groupID {
+		return errors.Errorf("invalid rule group id %q", groupID)
+	}
+	return nil
 }
 
 // LoadRuleGroups loads all rule groups from storage.
